@@ -204,12 +204,37 @@ def eval_inproc(case, rng):
         files["a.pcapng"] = files["b.pcapng"] = LAST_DSB_CAPTURE[0]
         argv_a = ["-i", "{dir}/a.pcapng", "-o", "{dir}/outa.pcapng"] + eb
         argv_b = ["-i", "{dir}/b.pcapng", "-o", "{dir}/outb.pcapng"] + eb
-    if case["i"] % 4 == 1:
+    samepath = None
+    if case["i"] % 6 in (0, 5) and not ends and "-s" in argv_a:
+        # the later command names its inputs exactly as the earlier one did, but the files are others: the key log (and capture) rewritten under the same path, or the same
+        # relative names used from another working directory; half of them with key logs of exactly the same size (a comment line pads the shorter one)
+        samepath = rng.choice(["rewritten", "rewritten", "other-cwd"])
+        ka, kb = files["a.log"], files["b.log"]
+        if rng.random() < 0.6:
+            n = max(len(ka), len(kb)) + 3
+            ka, kb = [k + (b"# " + b"-" * (n - len(k) - 3) + b"\n" if len(k) < n else b"") for k in (ka, kb)]
+            files["a.log"], files["b.log"] = ka, kb
+            samepath += "+same-size"
+        if samepath.startswith("rewritten"):
+            both_cap = rng.random() < 0.5
+            pre_a = ["@cp:{dir}/a.log:{dir}/keys.log"] + (["@cp:{dir}/a.pcapng:{dir}/in.pcapng"] if both_cap else [])
+            pre_b = ["@cp:{dir}/b.log:{dir}/keys.log"] + (["@cp:{dir}/b.pcapng:{dir}/in.pcapng"] if both_cap else [])
+            argv_a = pre_a + ["-i", "{dir}/in.pcapng" if both_cap else "{dir}/a.pcapng", "-o", "{dir}/outa.pcapng", "-s", "{dir}/keys.log"] + ea
+            argv_b = pre_b + ["-i", "{dir}/in.pcapng" if both_cap else "{dir}/b.pcapng", "-o", "{dir}/outb.pcapng", "-s", "{dir}/keys.log"] + eb
+        else:
+            files.update({"da_in.pcapng": files["a.pcapng"], "da_keys.log": files["a.log"], "db_in.pcapng": files["b.pcapng"], "db_keys.log": files["b.log"]})
+            os_pre = lambda x: [f"@cp:{{dir}}/d{x}_in.pcapng:{{dir}}/d{x}/in.pcapng", f"@cp:{{dir}}/d{x}_keys.log:{{dir}}/d{x}/keys.log", f"@cd:{{dir}}/d{x}"]
+            argv_a = os_pre("a") + ["-i", "in.pcapng", "-o", "{dir}/outa.pcapng", "-s", "keys.log"] + ea
+            argv_b = os_pre("b") + ["-i", "in.pcapng", "-o", "{dir}/outb.pcapng", "-s", "keys.log"] + eb
+            files["da/.keep"] = files["db/.keep"] = b""
+    if case["i"] % 4 == 1 and not samepath:
         argv_a[3] = "{dir}/outb.pcapng"       # both runs write the same output path: the later export replaces the earlier (usually different, often longer) one
     solo = runner.run_tlexport(files, argv_b, outnames=("outb.pcapng",))
     both = runner.run_tlexport(files, [argv_a, argv_b], outnames=("outb.pcapng", "outa.pcapng"), earlier_may_fail=bool(ends))
-    out = {"cls": ["inproc", len(fa), len(fb), "+".join(ea), "+".join(eb), ends or "completes"], "tags": ["mode:in-process"],
-           "sample": {"case": case["id"], "A": [f.label for f in fa], "B": [f.label for f in fb], "args_A": ea, "args_B": eb, "earlier_run": ends or "completes"}}
+    out = {"cls": ["inproc", len(fa), len(fb), "+".join(ea), "+".join(eb), ends or "completes", samepath or ""], "tags": ["mode:in-process"],
+           "sample": {"case": case["id"], "A": [f.label for f in fa], "B": [f.label for f in fb], "args_A": ea, "args_B": eb, "earlier_run": ends or "completes", "same_input_paths": samepath}}
+    if samepath:
+        out["tags"].append("inproc:same-paths-" + samepath)
     fail = e2e.run_failed(solo)
     if fail:
         return dict(out, v="inconclusive" if fail.startswith("INCONCLUSIVE") else "violated", msg="B alone: " + fail, files=files)
